@@ -46,7 +46,7 @@ PROPS = {
 }
 
 TLC_WORKERS = int(os.environ.get("VERIF_TLC_WORKERS", "4"))
-TOL_CHERN = dict(haldane=1e-4, bilayer=2e-2, random=2e-2)   # >= 10^3 x the distance from an integer observed on the 40 x 40 grid
+TOL_CHERN = dict(haldane=1e-4, bilayer=2e-2, random=2e-2, weak_bilayer=1e-4)   # >= 10^3 x the distance from an integer observed on the 40 x 40 grid
 
 
 # ---------------------------------------------------------------- public path: a k.p system that carries the integer data
@@ -67,7 +67,7 @@ class KPHost:
                               der2Ham=lambda k: z2, der3Ham=lambda k: z3, kmax=1.0, finite_diff_dk=0.25)
         self.vol = float(abs(np.linalg.det(self.s.real_lattice)))
 
-    def evaluate(self, E, Vx, Vy, group_thresh=1.5):
+    def evaluate(self, E, Vx, Vy, group_thresh=1.5, scans=()):
         """-> dict(band (nb,3) quantity, tab (nb,3) tabulator, grp (nb,3) tabulator with band groups, Ef, ahc (nEf,3) per unit cell)"""
         import wannierberri as wb
         from wannierberri.calculators import tabulate, static
@@ -77,19 +77,46 @@ class KPHost:
         kw = accepted_kwargs(static.StaticCalculator.__init__, constant_factor=1.0)
         ahc = static.AHC(Efermi=Ef, kwargs_formula=kwf, degen_thresh=0.25, **kw)
         fac = 1.0 if kw else float(getattr(ahc, "constant_factor"))
+        cc = dict(tab=tabulate.BerryCurvature(kwargs_formula=kwf, degen_thresh=0.25),
+                  grp=tabulate.BerryCurvature(kwargs_formula=kwf, degen_thresh=group_thresh), ahc=ahc)
+        # Fermi scans that start INSIDE the bands: (lowest level, grouping code 0 none / 1 neighbours <= 1 apart / 2 Kramers pairs)
+        for i, (lo, code) in enumerate(scans):
+            cc[f"scan{i}"] = static.AHC(Efermi=np.arange(lo, max(E) + 2.0, 1.0), kwargs_formula=kwf, degen_thresh=1.5 if code == 1 else 0.25,
+                                        degen_Kramers=(code == 2), **kw)
         with quiet():
-            r = wb.evaluate_k(self.s, k=np.zeros(3), quantities=["berry_curvature_internal_terms"],
-                              calculators=dict(tab=tabulate.BerryCurvature(kwargs_formula=kwf, degen_thresh=0.25),
-                                               grp=tabulate.BerryCurvature(kwargs_formula=kwf, degen_thresh=group_thresh), ahc=ahc),
-                              return_single_as_dict=True)
+            r = wb.evaluate_k(self.s, k=np.zeros(3), quantities=["berry_curvature_internal_terms"], calculators=cc, return_single_as_dict=True)
         return dict(band=np.array(r["berry_curvature_internal_terms"]), tab=np.array(r["tab"].data[0]), grp=np.array(r["grp"].data[0]),
-                    Ef=Ef, ahc=np.array(r["ahc"].data) * self.vol / fac)
+                    Ef=Ef, ahc=np.array(r["ahc"].data) * self.vol / fac,
+                    scans=[np.array(r[f"scan{i}"].data)[:, 2] * self.vol / fac for i in range(len(scans))])
 
 
 def chain_groups(E, thresh):
     """the band groups of a tabulator: neighbouring bands closer than thresh belong together (0-based half-open)"""
     b = [0] + [i + 1 for i in range(len(E) - 1) if E[i + 1] - E[i] > thresh] + [len(E)]
     return list(zip(b, b[1:]))
+
+
+def scan_groups(E, code):
+    """band groups (0-based half-open) of a Fermi scan: 0 every band alone, 1 neighbours at most 1 apart, 2 Kramers pairs"""
+    nb = len(E)
+    if code == 2:
+        b = [i for i in range(nb + 1) if i % 2 == 0 or i == nb]
+    elif code == 1:
+        b = [0] + [i + 1 for i in range(nb - 1) if E[i + 1] - E[i] > 1] + [nb]
+    else:
+        b = list(range(nb + 1))
+    return list(zip(b, b[1:]))
+
+
+def level_inside_group(E, level, code):
+    """the level lies strictly between two neighbouring bands of one group (named predicate LevelInsideGroup of SumRule.tla)"""
+    return any(any(E[n] < level < E[n + 1] for n in range(a, b - 1)) for a, b in scan_groups(E, code))
+
+
+def scan_plan(E, idx):
+    """the scans of one input: one start level inside the bands per grouping (E_j + 1/4), now and then one below all bands"""
+    j = idx % len(E)
+    return [((E[j] + 0.25) if (idx + c) % 5 else -0.75, c) for c in (0, 1, 2)]
 
 
 def den_io(E, a, b):
@@ -187,7 +214,7 @@ def _check(rep, tier, scratch):
 
     # ------------------------------------------------------------ spec
     nbs, emax, offd = ((2, 3), 4, "OFFD_4") if thorough else ((2, 3), 3, "OFFD_3")
-    invs = ("TypeOK", "SumRuleZero", "Additive", "Antisym", "DegenSumRule")
+    invs = ("TypeOK", "SumRuleZero", "Additive", "Antisym", "DegenSumRule", "ScanZero")
     st = tlc.run_tlc("MC_SumRule.tla", cfg_text(nbs, emax, offd, "code", invs), scratch.name("c27_sumrule"), workers=TLC_WORKERS, dump=True,
                      coverage=False, timeout=1500)
     if st.get("timeout"):
@@ -209,6 +236,14 @@ def _check(rep, tier, scratch):
         if not sv.get("violation") or sv["violation"][1] != "SumRuleZero":
             raise MachineryError(f"sensitivity self-test failed: variant {variant} should violate SumRuleZero ({sv.get('error')})")
         rep.part(f"c27_sensitivity_{variant}", violated=sv["violation"][1])
+
+    # the two wrong book-keepings of a Fermi scan that starts inside the bands must both be rejected (one run, -continue)
+    sv = tlc.run_tlc("MC_SumRule.tla", cfg_text((2, 3), 2, "OFFD_3", "code", ("ScanZeroNOCLAMP", "ScanZeroKRAMERSDROP")), scratch.name("c27_scan_wrong"),
+                     workers=TLC_WORKERS, timeout=900, extra=["-continue"], coverage=False)
+    for nm in ("ScanZeroNOCLAMP", "ScanZeroKRAMERSDROP"):
+        if f"Invariant {nm} is violated" not in sv.get("output", ""):
+            raise MachineryError(f"sensitivity self-test failed: {nm} should be violated ({sv.get('error')})")
+    rep.part("c27_sensitivity_scan", violated=["ScanZeroNOCLAMP", "ScanZeroKRAMERSDROP"])
 
     # ------------------------------------------------------------ spec -> code (public path)
     states = list(ftable.dump_states(st))
@@ -236,7 +271,34 @@ def _check(rep, tier, scratch):
     tol = 1e-9
     maxdev = 0.0
     duck = dict(ok=0, on=True)
-    for s in sel:
+    scan_classes = dict(lowest_level_inside_group=0, lowest_level_between_groups=0, lowest_level_below_all_bands=0)
+
+    def check_scans(E, om, den, plan, got, inp, count=True):
+        """AHC on a scan of Fermi levels that starts at plan[i][0]: 0 above all bands; the exact partial sum at every level that is
+        not inside a band group (inside a group the value depends on where the group is put: LevelInsideGroup, not compared)"""
+        out = []
+        for (lo, code), vals in zip(plan, got):
+            levels = [lo + i for i in range(len(vals))]
+            if count:
+                cls = ("lowest_level_below_all_bands" if lo < min(E) else
+                       "lowest_level_inside_group" if level_inside_group(E, lo, code) else "lowest_level_between_groups")
+                scan_classes[cls] += 1
+            det = dict(inp, scan_lowest_level=lo, grouping=["none", "degen_thresh=1.5", "degen_Kramers"][code], levels=levels, got=[float(v) for v in vals])
+            if levels[-1] <= max(E):
+                raise MachineryError(f"scan does not end above all bands: {levels} {E}")
+            if abs(vals[-1]) * den > tol:
+                rep.violation("static.AHC:scan:above_all_bands", dict(det, what="the Fermi scan starts inside the bands; above all bands the internal AHC must vanish"))
+            for lv, v in zip(levels, vals):
+                if level_inside_group(E, lv, code):
+                    continue
+                exp = sum(om[:occupied(E, lv)])
+                if abs(v * den - exp) > tol * max(1, abs(exp)):
+                    rep.violation("static.AHC:scan:sea", dict(det, level=lv, expected_num=exp, got_value=float(v)))
+                    break
+            out.append([int(round(4 * lo)), code, [v for v in vals]])
+        return out
+
+    for istate, s in enumerate(sel):
         E, Vx, Vy, om, den = list(s["E"]), s["Vx"], s["Vy"], list(s["om"]), s["den"]
         nb = len(E)
         key = ("replay", tuple(E), repr(Vx), repr(Vy))
@@ -244,13 +306,15 @@ def _check(rep, tier, scratch):
         inp = dict(E=E, Vx=[[list(x) for x in r] for r in Vx], Vy=[[list(x) for x in r] for r in Vy], den=den,
                    how="SystemKP(Ham = diag(E) + kx Vx + ky Vy, analytic derivatives), evaluate_k at k = 0")
         try:
-            r = host(nb).evaluate(E, cmat(Vx), cmat(Vy))
+            plan = scan_plan(E, istate)
+            r = host(nb).evaluate(E, cmat(Vx), cmat(Vy), scans=plan)
         except Exception as ex:  # noqa
             if isinstance(ex, (MachineryError, OSError, ImportError)):
                 raise
             rep.violation("raises:evaluate_k:" + type(ex).__name__, dict(inp, error=repr(ex)[:300]))
             continue
         band, tab, grp, Ef, ahc = r["band"], r["tab"], r["grp"], r["Ef"], r["ahc"]
+        check_scans(E, om, den, plan, r["scans"], inp)
         if np.abs(band[:, :2]).max() != 0:
             rep.violation("Omega:xy_components_nonzero", dict(inp, got=band.tolist()))
         for n in range(nb):
@@ -290,7 +354,10 @@ def _check(rep, tier, scratch):
                     rep.violation("Omega.trace:block", dict(inp, block=[a, b], expected_num=exp, got=float(v[2]), how="Formula_ln.trace on a duck-typed data_K"))
             duck["ok"] += bool(blk)
         rep.sample(dict(fn="evaluate_k(SystemKP)", E=E, Vx=inp["Vx"], Vy=inp["Vy"], den=den, expected_num=om, got=band[:, 2].tolist()))
-    rep.part("replay", states_replayed=len(sel), max_relative_deviation=maxdev, tolerance=tol, block_traces_through_duck_data_K=duck["ok"])
+    if not rep.violations and not all(scan_classes.values()):
+        raise MachineryError(f"a class of Fermi scans is empty: {scan_classes}")
+    rep.part("replay", states_replayed=len(sel), max_relative_deviation=maxdev, tolerance=tol, block_traces_through_duck_data_K=duck["ok"],
+             fermi_scans=scan_classes)
 
     # ------------------------------------------------------------ code -> spec
     recs = []
@@ -314,7 +381,7 @@ def _check(rep, tier, scratch):
             return None
         return int(round(v))
 
-    for _ in range(nrec):
+    for irec in range(nrec):
         nb = rng.choice([3, 4, 4])
         E = sorted(rng.sample(range(0, 6), nb))
         Vx, Vy = herm(nb), herm(nb)
@@ -323,8 +390,9 @@ def _check(rep, tier, scratch):
             for l in range(m):
                 den *= (E[m] - E[l]) ** 2
         ctx = dict(E=E, Vx=Vx, Vy=Vy, den=den)
+        plan = scan_plan(E, irec)
         try:
-            r = host(nb).evaluate(E, cmat(Vx), cmat(Vy))
+            r = host(nb).evaluate(E, cmat(Vx), cmat(Vy), scans=plan)
         except Exception as ex:  # noqa
             if isinstance(ex, (MachineryError, OSError, ImportError)):
                 raise
@@ -335,9 +403,12 @@ def _check(rep, tier, scratch):
         sea_by_occ = {}
         for ie, ef in enumerate(r["Ef"]):
             sea_by_occ[occupied(E, ef)] = to_int(r["ahc"][ie, 2], den, f"sea Ef={ef}", ctx)
-        if None in om or any(g[2] is None for g in grp) or None in sea_by_occ.values() or sorted(sea_by_occ) != list(range(nb + 1)):
+        scans = [[int(round(4 * lo)), code, [to_int(v, den, f"scan from {lo} grouping {code}", ctx) for v in vals]]
+                 for (lo, code), vals in zip(plan, r["scans"])]
+        if None in om or any(g[2] is None for g in grp) or None in sea_by_occ.values() or sorted(sea_by_occ) != list(range(nb + 1)) \
+                or any(None in sc[2] for sc in scans):
             continue
-        recs.append(dict(E=E, Vx=Vx, Vy=Vy, den=den, om=om, grp=grp, sea=[sea_by_occ[j] for j in range(nb + 1)]))
+        recs.append(dict(E=E, Vx=Vx, Vy=Vy, den=den, om=om, grp=grp, sea=[sea_by_occ[j] for j in range(nb + 1)], scans=scans))
         rep.case(("rec", tuple(E), repr(Vx), repr(Vy)), nontrivial=any(om))
     nnondeg = len(recs)
     # spectra with exactly degenerate levels: only traces over whole multiplets are defined
@@ -445,13 +516,16 @@ def fukui(Hk, N, nocc=1):
     return -F / (2 * np.pi), float(vmax), float(cmin)
 
 
-def ahc_run(system, Ef, NK, fft, wd, name, tetra=False):
+def ahc_run(system, Ef, NK, fft, wd, name, tetra=False, variants=None):
+    """variants: {name: keyword arguments of static.AHC} evaluated in the same run (degen_thresh, degen_Kramers, tetra)"""
     import wannierberri as wb
     from wannierberri import calculators as calc
     kwf = {"external_terms": False}
     cc = {"ahc": calc.static.AHC(Efermi=np.array(Ef, dtype=float), kwargs_formula=kwf)}
     if tetra:
         cc["ahc_tetra"] = calc.static.AHC(Efermi=np.array(Ef, dtype=float), kwargs_formula=kwf, tetra=True)
+    for nm, kw in (variants or {}).items():
+        cc[nm] = calc.static.AHC(Efermi=np.array(Ef, dtype=float), kwargs_formula=kwf, **kw)
     with quiet():
         grid = wb.Grid(system, NK=NK, NKFFT=fft)
         res = wb.run(system, grid, cc, parallel=False, adpt_num_iter=0, use_irred_kpt=False, symmetrize=False, fout_name=f"{wd}/{name}")
@@ -519,7 +593,7 @@ def numeric(rep, rng, thorough, wd):
     tries = 0
     while done < nrun and tries < 10 * nrun:
         tries += 1
-        nw = rng.choice([2, 3])
+        nw = 3 if done == 0 else rng.choice([2, 3])     # an odd number of bands at least once (degen_Kramers groups: the last band is alone)
         m = km.build(rng.randrange(1 << 30), nw=nw, dim=3, rmax=1, keys=("Ham",), centres="random")
         kgrid = [np.array([i, j, l]) / 4.0 for i in range(4) for j in range(4) for l in range(4)]
         if min(km.min_gap(m, k) for k in kgrid) < 0.02:      # NonDegenerateK on the k-points of the run
@@ -532,7 +606,9 @@ def numeric(rep, rng, thorough, wd):
         if not ok:
             done += 1
             continue
-        ok, out = guarded(rep, "run:AHC", det, ahc_run, s, [mid, bw, bw + 1.0], [4, 4, 4], [2, 2, 2], wd, f"ahc{done}", tetra=True)
+        ok, out = guarded(rep, "run:AHC", det, ahc_run, s, [mid, bw, bw + 1.0], [4, 4, 4], [2, 2, 2], wd, f"ahc{done}", tetra=True,
+                          variants=dict(ahc_kramers=dict(degen_Kramers=True), ahc_thresh=dict(degen_thresh=0.05),
+                                        ahc_thresh_tetra=dict(degen_thresh=0.05, tetra=True)))
         done += 1
         if not ok:
             continue
@@ -547,8 +623,10 @@ def numeric(rep, rng, thorough, wd):
             dev = float(np.abs(dd[1:]).max())
             worst = max(worst, dev / scale)
             if dev > tol * scale:
-                rep.violation(f"run:AHC:Ef_above_all_bands{':tetra' if nm == 'ahc_tetra' else ''}", dict(det, ahc=dd.tolist(), calculator=nm))
-    rep.part("numeric_only", ahc_above_runs=done, ahc_above_max_rel_dev=worst, ahc_above_calculators=["AHC", "AHC(tetra=True)"])
+                rep.violation(f"run:AHC:Ef_above_all_bands{'' if nm == 'ahc' else ':' + nm[4:]}", dict(det, ahc=dd.tolist(), calculator=nm))
+    rep.part("numeric_only", ahc_above_runs=done, ahc_above_max_rel_dev=worst,
+             ahc_above_calculators=["AHC", "AHC(tetra=True)", "AHC(degen_Kramers=True)", "AHC(degen_thresh=0.05)", "AHC(degen_thresh=0.05, tetra=True)"],
+             note_ahc_above="the lowest Fermi level of these scans is the median band energy, i.e. inside the bands")
 
     # (c) Chern numbers
     quantum = elementary_charge ** 2 / h
@@ -608,6 +686,51 @@ def numeric(rep, rng, thorough, wd):
     for a, b in pairs:
         m = km.haldane_bilayer(rng.randrange(1 << 30), layer[a], layer[b], coupling=0.125)
         chern_case("bilayer", "System_R.from_sparse", lambda: m.system(periodic=(True, True, False)), m.Hk, 2, dict(model=m.describe()))
+    # weakly coupled identical layers: the two valence bands are closer than degen_thresh = 0.05 and the Fermi scan starts just below the
+    # valence-band top, INSIDE that near-degenerate pair at some k-points of the run (class lowest_level_inside_group)
+    weak = dict(done=0, straddling_kpoints=0, worst_in_gap=0.0, worst_above=0.0)
+    for ilay in ((0, 1) if thorough else (0,)):
+        m = km.haldane_bilayer(rng.randrange(1 << 30), layer[ilay], layer[ilay], coupling=0.015625)
+        ks = [np.array([i / N, j / N, 0.0]) for i in range(N) for j in range(N)]
+        Es = np.array([np.linalg.eigvalsh(m.Hk(k)) for k in ks])
+        itop = int(np.argmax(Es[:, 1]))
+        split = float(Es[itop, 1] - Es[itop, 0])
+        vtop, cbot, emax = float(Es[:, 1].max()), float(Es[:, 2].min()), float(Es.max())
+        if not 1e-3 < split < 0.05 or cbot - vtop < 0.5:
+            raise MachineryError(f"weak bilayer unsuitable: splitting at the valence-band top {split}, gap {cbot - vtop}")
+        ef0 = vtop - split / 2
+        step = 0.5 * (vtop + cbot) - ef0
+        nlev = int(np.ceil((emax - ef0) / step)) + 3
+        Ef = ef0 + step * np.arange(nlev)          # Ef[1] = mid-gap, Ef[-1], Ef[-2] above all bands
+        nstr = int(np.sum((Es[:, 0] < ef0) & (Es[:, 1] >= ef0) & (Es[:, 1] - Es[:, 0] <= 0.05)))
+        if nstr == 0 or Ef[-2] <= emax:
+            raise MachineryError(f"weak bilayer: no k-point where the lowest level lies inside the near-degenerate pair ({nstr}) / scan too short")
+        cf, _, _ = fukui(m.Hk, 24, 2)
+        det = dict(model=m.describe(), Efermi_first=ef0, Efermi_step=step, levels=nlev, kpoints_with_lowest_level_inside_group=nstr, plaquette_C=float(cf))
+        ok, s = guarded(rep, "System_R.from_sparse", det, lambda: m.system(periodic=(True, True, False)))
+        if not ok:
+            continue
+        ok, out = guarded(rep, "run:AHC", det, ahc_run, s, Ef, [N, N, 1], [N // 4, N // 4, 1], wd, "weak",
+                          variants=dict(ahc_thresh=dict(degen_thresh=0.05), ahc_thresh_tetra=dict(degen_thresh=0.05, tetra=True), ahc_tetra=dict(tetra=True)))
+        if not ok:
+            continue
+        c = float(s.real_lattice[2, 2])
+        weak["done"] += 1
+        weak["straddling_kpoints"] += nstr
+        rep.case(("chern_weak_bilayer", ilay), nontrivial=round(cf) != 0)
+        for nm, dd in out[0].items():
+            cz = dd[1, 2] * c * angstrom / quantum
+            above = float(np.abs(dd[-2:, 2]).max() * c * angstrom / quantum)
+            weak["worst_in_gap"] = max(weak["worst_in_gap"], float(abs(cz - round(cz))))
+            weak["worst_above"] = max(weak["worst_above"], above)
+            d2 = dict(det, calculator=nm, ahc_c_over_e2h_in_gap=float(cz), above_all_bands=above)
+            if abs(cz - round(cz)) > TOL_CHERN["weak_bilayer"] or round(cz) != -round(cf):
+                rep.violation("AHC:Chern:weak_bilayer:in_gap:" + nm, d2)
+            if above > 1e-6:
+                rep.violation("AHC:Chern:weak_bilayer:above_all_bands:" + nm, d2)
+    if not rep.violations and not weak["done"]:
+        raise MachineryError("no weak-bilayer case was run")
+    rep.part("numeric_only", weak_bilayer=weak, weak_bilayer_calculators=["AHC", "AHC(degen_thresh=0.05)", "AHC(degen_thresh=0.05, tetra=True)", "AHC(tetra=True)"])
     # random four-band 2-D models with a staircase of on-site energies, two occupied bands
     for _ in range(4 if thorough else 2):
         m = km.build(rng.randrange(1 << 30), nw=4, dim=2, rmax=1, keys=("Ham",), centres="random", onsite_spread=rng.choice([8.0, 12.0]))
